@@ -47,6 +47,9 @@ TRANSPARENT = {
     "uuid::fmt::<impl uuid::Uuid>::as_hyphenated": 0,
     "core::hint::must_use": 0,
     "anyhow::__private::must_use": 0,
+    # views of the same object (`boxed.as_mut()` is the pointee; terms are transparent for borrows and smart pointers)
+    "core::convert::AsMut::as_mut": 0,
+    "core::convert::AsRef::as_ref": 0,
 }
 
 BYTE_CONTAINERS = {"bytes::bytes_mut::BytesMut", "bytes::bytes::Bytes", "alloc::vec::Vec<u8>"}
@@ -188,6 +191,13 @@ class Prov:
                                 and self._sum_adt(n2["rv"].get("adt")) and len(n2["rv"]["ops"]) <= 1:
                             sub = ((n2["rv"]["variant"], self.operand_term(n2["rv"]["ops"][0]) if n2["rv"]["ops"] else ("unit",)),)
                     if sub is None:
+                        lty = self.body.locals[l]["ty"]
+                        x = self.def_term(site)
+                        if x[0] == "call" and x[1] != FROM_RESIDUAL and lty.startswith("core::result::Result<"):
+                            sub = (("Ok", ("ok", x)), ("Err", ("err", x)))
+                        elif x[0] == "call" and lty.startswith("core::option::Option<"):
+                            sub = (("Some", ("ok", x)), ("None", ("unit",)))
+                    if sub is None:
                         okay = False
                         break
                     for v, pl in sub:
@@ -198,6 +208,18 @@ class Prov:
                     continue
                 if site[1] == "T" or node["rv"]["k"] != "aggregate" or node["rv"].get("ak") != "adt" \
                         or not self._sum_adt(node["rv"].get("adt")) or len(node["rv"]["ops"]) > 1:
+                    # a Result / Option that is not built here but obtained (the result of a call, a value moved in): on the
+                    # paths where it is the live definition its Ok payload is ok(X) and its error err(X)
+                    lty = self.body.locals[l]["ty"]
+                    x = self.def_term(site)
+                    if x[0] in ("call",) and x[1] != FROM_RESIDUAL and (lty.startswith("core::result::Result<") or lty.startswith("core::option::Option<")):
+                        if lty.startswith("core::result::Result<"):
+                            per.setdefault("Ok", set()).add(("ok", x))
+                            per.setdefault("Err", set()).add(("err", x))
+                        else:
+                            per.setdefault("Some", set()).add(("ok", x))
+                            per.setdefault("None", set()).add(("unit",))
+                        continue
                     okay = False
                     break
                 rv = node["rv"]
@@ -337,10 +359,26 @@ class Prov:
                 # (`const SQL_CREATE_SCHEMA: [&str; 3] = [..]`): the aggregate of its element values
                 cb = self.body.prog.bodies[d]
                 if cb.kind.startswith(("Const", "AssocConst")) and len(cb.blocks) == 1 and cb.blocks[0]["term"]["k"] == "return":
-                    st = [x for x in cb.blocks[0]["stmts"] if x["k"] == "assign"]
-                    if len(st) == 1 and st[0]["p"]["l"] == 0 and not st[0]["p"]["proj"] and st[0]["rv"]["k"] == "aggregate" \
-                            and st[0]["rv"]["ak"] in ("array", "tuple") and all(o["k"] == "const" and "val" in o for o in st[0]["rv"]["ops"]):
-                        return ("agg", st[0]["rv"]["ak"], tuple((str(i), ("const", None, o["val"], o["ty"])) for i, o in enumerate(st[0]["rv"]["ops"])))
+                    st = [x for x in cb.blocks[0]["stmts"] if x["k"] == "assign" and not x["p"]["proj"]]
+                    bydef = {}
+                    for x in st:
+                        bydef.setdefault(x["p"]["l"], []).append(x["rv"])
+                    # `const X: [&str; 3] = [..]` or `const X: &[&str] = &[..]` (array, borrowed, unsized): follow _0 back to the literal
+                    cur, hops = 0, 0
+                    while hops < 6 and len(bydef.get(cur, [])) == 1:
+                        hops += 1
+                        rv_ = bydef[cur][0]
+                        if rv_["k"] == "aggregate" and rv_["ak"] in ("array", "tuple") and all(o["k"] == "const" and "val" in o for o in rv_["ops"]):
+                            return ("agg", rv_["ak"], tuple((str(i), ("const", None, o["val"], o["ty"])) for i, o in enumerate(rv_["ops"])))
+                        if rv_["k"] == "use" and rv_["op"]["k"] in ("copy", "move") and all(e["k"] == "deref" for e in rv_["op"]["p"]["proj"]):
+                            cur = rv_["op"]["p"]["l"]
+                        elif rv_["k"] == "ref" and all(e["k"] == "deref" for e in rv_["p"]["proj"]):
+                            cur = rv_["p"]["l"]
+                        elif rv_["k"] == "cast" and str(rv_.get("ck", "")).startswith("ptr:Unsize") and rv_["op"]["k"] in ("copy", "move") \
+                                and not rv_["op"]["p"]["proj"]:
+                            cur = rv_["op"]["p"]["l"]
+                        else:
+                            break
             if d is not None and v is None:
                 v = self.body.prog.const_value(d)
             if isinstance(v, list):
@@ -371,12 +409,28 @@ class Prov:
                 return self.apply_proj(t, pr[2:])
         return self.apply_proj(t, proj)
 
+    def _field_mut_borrowed(self, l, fname):
+        """Is local l borrowed mutably as a whole, or through field `fname`?"""
+        for site in self.mutborrow.get(l, []):
+            node = self.node_at(site)
+            pr = [e for e in node["rv"]["p"]["proj"]]
+            if not pr or pr[0].get("k") != "field" or pr[0].get("name") == fname:
+                return True
+        return False
+
     def apply_proj(self, t, proj):
         for e in proj:
             k = e["k"]
             if k == "deref":
                 continue
             if k == "field":
+                if t[0] == "mut" and t[3][0] == "agg" and not self._field_mut_borrowed(t[1], e["name"]):
+                    # a field of a struct local of which only OTHER fields are handed out by `&mut` (`session.client` when only
+                    # `session.txn` is borrowed mutably): the plain field value
+                    hit = [v for n, v in t[3][2] if n == e["name"]]
+                    if hit:
+                        t = hit[0]
+                        continue
                 if t[0] == "const" and t[1] is not None and t[2] is None:
                     # the only field of a scalar newtype constant (`const MAX_SIZE: BodyLimit = BodyLimit::mebibytes(100)`):
                     # the evaluated constant has the field's value
@@ -510,6 +564,12 @@ def mk_field(t, name):
         for n, v in t[2]:
             if n == name:
                 return v
+    if t[0] == "mut" and t[3][0] == "agg":
+        # a field of a struct local that is (partly) handed out by `&mut` (`self.txn.as_mut()` on a private `Session { txn, .. }`):
+        # the field's value, still marked as reachable through that borrow
+        for n, v in t[3][2]:
+            if n == name:
+                return ("mut", t[1], t[2], v)
     if t[0] == "variant" and name == "0" and len(t) == 4:
         if t[2] in OK_VARIANTS:
             return mk_ok(t[1])
